@@ -29,7 +29,151 @@ func equivalent(a, b *Dyn, heapOrderFree bool) string {
 	return ""
 }
 
+// Huge round trips: a couple of hundred thousand keys inserted in strictly
+// falling order (the deepest trees, the longest lists), serialised, loaded into
+// a fresh container and serialised again.
+var hugeRoundTripKinds = []string{"TreeSet", "TreeMap", "TreeBidiMap", "RedBlackTree", "AVLTree", "BTree", "LinkedHashMap", "LinkedHashSet", "ArrayList", "DoublyLinkedList", "SinglyLinkedList", "HashMap", "HashSet"}
+
+func runHugeRoundTrip(c *core.Ctx, j int) {
+	kind := hugeRoundTripKinds[j]
+	n := 220000
+	if c.Tier == "thorough" {
+		n = 1000000
+	}
+	cfg := dynCfg{cmp: 0, vcmp: 0, order: []int{3, 4, 64}[j%3], cap: 8}
+	d := NewDyn(kind, IntDom(8), IntDom(8), cfg)
+	c.Begin(kind, "build", n, "falling")
+	vs := make([]any, 0, n)
+	for i := n - 1; i >= 0; i-- {
+		if isKV(kind) {
+			vs = append(vs, [2]any{i * 6, i*6 + 1})
+		} else {
+			vs = append(vs, i*6)
+		}
+	}
+	d.PutAny(vs)
+	c.Begin(kind, "ToJSON")
+	j1, err := d.JSON.ToJSON()
+	if err != nil {
+		c.Fail("tojson", "huge-error", "%s.ToJSON() with %d elements returned %v", kind, n, err)
+	}
+	f := d.Fresh()
+	c.Begin(kind, "FromJSON", len(j1))
+	if err := f.JSON.FromJSON(j1); err != nil {
+		c.Fail("fromjson", "huge-error", "%s.FromJSON of its own %d-element output returned %v", kind, n, err)
+	}
+	if f.C.Size() != n || d.C.Size() != n {
+		c.Fail("reload", "huge-size", "%s with %d elements: reloaded Size() = %d, original Size() = %d", kind, n, f.C.Size(), d.C.Size())
+	}
+	c.Begin(kind, "ToJSON(reloaded)")
+	j2, err := f.JSON.ToJSON()
+	if err != nil {
+		c.Fail("tojson", "huge-error", "%s.ToJSON() of the reloaded container returned %v", kind, err)
+	}
+	if d.Ordered && string(j1) != string(j2) {
+		c.Fail("reload", "huge-not-equivalent", "%s with %d elements: the reloaded container serialises differently (%d vs %d bytes)", kind, n, len(j1), len(j2))
+	}
+	if !d.Ordered && len(j1) != len(j2) {
+		c.Fail("reload", "huge-not-equivalent", "%s with %d elements: the reloaded container serialises to %d bytes, the original to %d", kind, n, len(j2), len(j1))
+	}
+	// spot checks on the reloaded container
+	if f.Get != nil {
+		for _, i := range []int{0, 1, n / 2, n - 1} {
+			if v, ok := f.Get(i * 6); !ok || v != any(i*6+1) {
+				c.Fail("reload", "huge-get", "%s reloaded from %d pairs: Get(%d) = (%v,%v)", kind, n, i*6, v, ok)
+			}
+		}
+	}
+	c.Count("obs:huge-round-trips", 1)
+	c.Nontrivial()
+}
+
+// runC11Floats: containers whose content includes values encoding/json refuses
+// (NaN, the infinities). ToJSON may then return an error - but an error is all
+// it may do: the next serialisation, of this or any other container, must be
+// unaffected (buffers taken from a pool and put back half-written on the error
+// path), and encodable float content must round-trip like any other.
+func runC11Floats(c *core.Ctx, sel int) {
+	r := c.R
+	kind := dynKinds[sel%len(dynKinds)]
+	if kind == "HashBidiMap" {
+		kind = "TreeBidiMap" // (its values are hash keys of the inverse map: NaN there is outside every statement)
+	}
+	cfg := drawCfg(r, true)
+	var d *Dyn
+	var good []any
+	if isKV(kind) {
+		d = NewDyn(kind, StrDom(8), FDom(), cfg)
+		good = []any{[2]any{"a", 1.5}, [2]any{"b", 3.0}, [2]any{"k1", -2.25}}
+	} else {
+		d = NewDyn(kind, FDom(), IntDom(4), cfg)
+		good = []any{1.5, 3.0, -2.25}
+	}
+	c.Begin(kind, "New", d.Elem, d.Config)
+	d.build(c, r.Range(1, 30))
+	bad := false
+	for _, lst := range [][]any{d.Values(), func() []any {
+		if d.Keys != nil {
+			return d.Keys()
+		}
+		return nil
+	}()} {
+		for _, v := range lst {
+			if f, ok := v.(float64); ok && (f != f || f > 1e308 || f < -1e308) {
+				bad = true
+			}
+		}
+	}
+	c.Begin(kind, "ToJSON")
+	j, err := d.JSON.ToJSON()
+	switch {
+	case err != nil && !bad:
+		c.Fail("tojson", "error", "%s(%s).ToJSON() returned %v although every element is encodable: %s", kind, d.Elem, err, short(d.Values()))
+	case err != nil:
+		c.Count("obs:tojson-refused-unencodable-content", 1)
+	default:
+		f := d.Fresh()
+		c.Begin(kind, "FromJSON", string(j))
+		if e := f.JSON.FromJSON(j); e != nil {
+			c.Fail("reload", "own-output-rejected", "%s(%s).FromJSON rejects the container's own ToJSON output %s: %v", kind, d.Elem, j, e)
+		}
+		if diff := equivalent(d, f, true); diff != "" {
+			c.Fail("reload", "not-equivalent", "%s(%s) reloaded from its own ToJSON output %s: %s", kind, d.Elem, j, diff)
+		}
+		c.Count("obs:float-round-trips", 1)
+	}
+	// whatever happened above, the next serialisation is a serialisation like any other
+	o := d.Fresh()
+	o.PutAny(good)
+	c.Begin(kind, "ToJSON", "another container, after the call above")
+	j2, err2 := o.JSON.ToJSON()
+	if err2 != nil || !json.Valid(j2) {
+		c.Fail("tojson", "after-refused-call", "%s(%s).ToJSON() of a container holding %v, called after another container's ToJSON, returned %s, %v", kind, d.Elem, good, j2, err2)
+	}
+	f2 := d.Fresh()
+	if e := f2.JSON.FromJSON(j2); e != nil {
+		c.Fail("reload", "own-output-rejected", "%s(%s).FromJSON rejects ToJSON output %s: %v", kind, d.Elem, j2, e)
+	}
+	if diff := equivalent(o, f2, true); diff != "" {
+		c.Fail("reload", "not-equivalent", "%s(%s) holding %v reloaded from its own ToJSON output %s (produced right after another container's ToJSON call): %s", kind, d.Elem, good, j2, diff)
+	}
+	c.Count("obs:serialisation-after-float-case", 1)
+	c.Nontrivial()
+}
+
 func runC11(c *core.Ctx) {
+	if c.Index%43 == 11 && c.Index >= len(hugeRoundTripKinds) {
+		runC11Floats(c, c.Index/43)
+		return
+	}
+	if c.Index < len(hugeRoundTripKinds) {
+		runHugeRoundTrip(c, c.Index)
+		return
+	}
+	if c.Index%41 == 7 {
+		runC11Nested(c, c.Index/41)
+		return
+	}
 	r := c.R
 	kind := dynKinds[c.Index%len(dynKinds)]
 	d := newDynRandom(c, kind, false)
@@ -181,6 +325,10 @@ func init() {
 			f := &floorCheck{m: m}
 			f.atLeast("obs:reload", 20000)
 			f.atLeast("obs:reload-nonempty", 5000)
+			f.atLeast("obs:tojson-refused-unencodable-content", 200)
+			f.atLeast("obs:serialisation-after-float-case", 500)
+			f.atLeast("obs:nested-tojson", 1000)
+			f.atLeast("obs:huge-round-trips", int64(len(hugeRoundTripKinds)))
 			f.atLeast("obs:lockstep-drain", 2000)
 			f.atLeast("state:never-used", 500)
 			f.atLeast("state:used-then-cleared", 500)
